@@ -267,6 +267,13 @@ func (w *concWorker) step(i int) uint64 {
 			r.violate("solo-equal", "invalid-accepted", what+": invalid document accepted")
 			return 0
 		}
+		// the call has returned: the input buffer and the object handed in are the caller's again
+		for i := range bad {
+			bad[i] = ' '
+		}
+		if reuse != nil {
+			w.dst = reuse // the next Deserialize of this worker uses it as its destination
+		}
 		f.u64(1)
 	case opDeserializeDamaged:
 		if w.blob == nil {
@@ -343,7 +350,12 @@ func (w *concWorker) step(i int) uint64 {
 		case 2:
 			rd = &lineReader{data: buf.Bytes(), max: 1 + c.Intn("rdmax", 7)}
 		}
-		simdjson.ParseNDStream(rd, res, nil)
+		var reuse chan *simdjson.ParsedJson
+		if c.Intn("streamreuse", 2) == 0 {
+			// results this worker is done with go back for reuse (its own stream only)
+			reuse = make(chan *simdjson.ParsedJson, 1+c.Intn("streamreusecap", 3))
+		}
+		simdjson.ParseNDStream(rd, res, reuse)
 		var got []*MV
 		var last error
 		for v := range res {
@@ -357,6 +369,12 @@ func (w *concWorker) step(i int) uint64 {
 				return 0
 			}
 			got = append(got, roots...)
+			if reuse != nil {
+				select {
+				case reuse <- v.Value:
+				default:
+				}
+			}
 		}
 		if last != io.EOF {
 			r.violate("solo-equal", "stream-error", fmt.Sprintf("%s: stream ended with %v", what, last))
